@@ -18,12 +18,13 @@ CHECKS = {
          NOTE_COMMON, "Lean 4 proof (digit-level refinement to declarative rounding) + translated round_pair table + differential correspondence", "DESIGN.md §5 C06"),
  "C07": ("Kernel-checked Lean theorems: with_precision_round (and every Context / reference entry point, which call it) equals the declarative rounding at the p-th "
          "significant digit for every decimal, p and mode (C07_withPrecisionRound, built on C06's refinement); padding to p digits when fewer exist (C07_pads); "
-         "with_prec(p) = the same rounding with ties away from zero for both signs and commutes with negation (C07_withPrec, C07_withPrec_neg, under the scalar estimate condition EstOK); "
+         "with_prec(p) = the same rounding with ties away from zero for both signs and commutes with negation (C07_withPrec, C07_withPrec_neg for every digit estimate satisfying the scalar condition EstOK; C07_withPrec_code: with the code's own f64 estimate, modelled through the rounding primitive of C14, for every decimal below 2^40 bits - no floating-point premise); "
          "context sums round the exact sum once. Correspondence: exact (int, scale) comparison over all entry points.",
-         NOTE_COMMON + " f64 digit estimate: EstOK proved for the real formula, exercised exhaustively on the real code (C18).",
+         NOTE_COMMON + " f64 digit estimate: EstOK is proved for the code's own quotient (C18_est_code; IEEE division and u64->f64 conversion modelled as correctly rounded). The proof obligation exposed defect F15 (get_rounding_term at 146964308 bits), repaired in /repo.",
          "Lean 4 proof + differential correspondence check", "DESIGN.md §5 C07"),
- "C18": ("Kernel-checked Lean theorems: digits() = exact decimal digit count for every integer under the scalar condition EstOK on the bit-length estimate (proved for the real-valued "
-         "formula; the f64 formula is exercised on the real code for every bit length up to 4*10^4/4*10^5 and sampled to 2*10^7); ten_to_the_uint = 10^n for every n (all three algorithms); "
+ "C18": ("Kernel-checked Lean theorems: digits() = exact decimal digit count for every integer under the scalar condition EstOK on the bit-length estimate; C18_est_code proves EstOK for the code's own f64 quotient "
+         "(bits as f64 / LOG2_10) as u64 - modelled through the rounding primitive F64.rne of C14 - for every bit length up to 2^40 (via the convergent 97879/325147 of log10 2), hence "
+         "C18_digits_code and C18_rounding_term_code with no floating-point premise (the real code is also exercised for every bit length up to 4*10^4/4*10^5, sampled to 2*10^7, and at 146964308 bits where the f64 quotient overshoots); ten_to_the_uint = 10^n for every n (all three algorithms); "
          "normalized() keeps the value, strips all trailing zeros, maps zero to 0e0, and is canonical (equal values have identical normalized parts); scale/precision extension multiplies by "
          "the exact power of ten. Correspondence: accessor round trips through every constructor and view, exact comparison.",
          NOTE_COMMON + " Accessor/constructor agreement is definitional in the model; its tie to the code is the correspondence run.",
@@ -42,9 +43,10 @@ CHECKS = {
          NOTE_COMMON, "Lean 4 proof (invariant over operation sequences) + differential correspondence check on random programs", "DESIGN.md §5 C19"),
  "C02": ("Kernel-checked Lean theorems C02_eq_iff and C02_cmp_spec: the model of check_equality_bigdecimal_ref and Ord (sign cases, checked scale difference incl. >= 2^63, bit-length "
          "prefilter, u32-limb loop with u64 overflow guards and allocating fall-back, digit-wise path, u64/u128 fast paths, digit-count compare, most-significant-first digit loop) "
-         "equals equality / compare of the rational values for all operands below 2^64 bits; ==/cmp agreement, antisymmetry, transitivity; guardedness of the limb loop. "
+         "equals equality / compare of the rational values for all operands below 2^40 bits, for every estimate satisfying the scalar condition PreOK; C02_pre_code proves PreOK for the code's own f64 product "
+         "(LOG2_10 * k as f64) as u64, lowered by one as the code does, for every scale difference up to 2^40 (beyond that every such operand is below 10^k), so C02_eq_iff_code / C02_cmp_spec_code carry no floating-point premise; ==/cmp agreement, antisymmetry, transitivity; guardedness of the limb loop. "
          "Correspondence on all twelve observable answers incl. limb-boundary operands in every limb position.",
-         NOTE_COMMON + " The f64 product in the prefilter enters as the scalar condition PreOK (2^pre(k) <= 10^k), proved for the real formula.",
+         NOTE_COMMON + " The f64 product is modelled as one correctly rounded multiplication of the double LOG2_10 by the correctly rounded k (F64.rne, proved round-to-nearest in C14). The proof obligation exposed defect F16 (scale difference 178898934), repaired in /repo; its regression replays the shortcut through a hook.",
          "Lean 4 proof + differential correspondence check", "DESIGN.md §5 C02"),
  "C03": ("Kernel-checked Lean theorem C03_hash_eq_of_value_eq: decimals denoting the same number feed identical data (sign character and digit string, trimmed / zero-extended exactly as the "
          "source does) to any hasher - by induction on the number of extra trailing zeros; zero hashes as \"0\" with any scale; combined with C02, a == b implies equal hash input; totality of the model. "
@@ -118,7 +120,7 @@ CHECKS = {
          "Lean 4 structural theorems + exact certificate oracle + differential correspondence; partial proof", "DESIGN.md §5 C12"),
  "C13": ("PARTIAL BY NATURE. Lean model of exp (series loop with exact powers/factorials, impl_division per term - whose correct rounding is the theorem of C08 -, convergence test on the value "
          "trimmed to precision+5 digits, e^-x = 1/e^x). Kernel-checked for ALL arguments: C13_positive (whatever the routine returns is strictly positive - loop invariant over term, factorial, partial sum; "
-         "positivity of impl_division, of the reciprocal and of the with_prec trimming - under the scalar condition EstOK on the f64 digit estimate, which C18 checks on the real code for every bit length), "
+         "positivity of impl_division, of the reciprocal and of the with_prec trimming - under the scalar condition EstOK on the digit estimate; C13_positive_code instantiates it with the code's own f64 estimate up to 2^40 bits, proved in C18_est_code), "
          "C13_negative_is_reciprocal, exp(0) = 1. NOT proved: that the stopping test implies the tail is negligible, hence the one-unit bound for every x. "
          "That gap is closed per sampled input: every result of the real code is judged against a rational enclosure of e^x computed in outward-rounded interval arithmetic (scaling and squaring, "
          "Taylor partial sums with remainder bound) - strictly positive, configured digit count, within one unit of the last digit - and compared exactly with the model; ordered pairs check the "
